@@ -3,6 +3,7 @@ package main
 import (
 	"bytes"
 	"fmt"
+	"math"
 
 	gx "github.com/kwertop/gostatix"
 )
@@ -71,7 +72,7 @@ func (m *topkMem) Exec(op Tok) (opOut Tok, obs Tok) {
 	a := op.L
 	switch a[0].I() {
 	case tkNew:
-		t := gx.NewTopK(uint(a[2].U()), float64(a[3].U())/1e6, float64(a[4].U())/1e6)
+		t := gx.NewTopK(uint(a[2].U()), nudge(float64(a[3].U())/1e6, a, 5), nudge(float64(a[4].U())/1e6, a, 6))
 		_, _, _, sk, _ := gx.VerifTopKState(t)
 		rows, cols := uint64(0), uint64(0)
 		if sk != nil {
@@ -92,7 +93,7 @@ func (m *topkMem) Exec(op Tok) (opOut Tok, obs Tok) {
 		}
 		_, _, _, sk, _ := gx.VerifTopKState(t)
 		cmsOracle(m.orc, sk, a[2].B)
-		t.Insert(a[2].B, a[3].U())
+		t.Insert(el(a[2].B), a[3].U())
 		return opOut, TOk(TUnit())
 	case tkValues:
 		t := m.inst[a[1].I()]
@@ -241,4 +242,16 @@ func monitorTopK(backend string) Monitor {
 		}
 		return out
 	}
+}
+
+// nudge moves a rate by a[idx] ulps upwards (optional constructor arguments: near-identical rates
+// that give the same sketch shape).
+func nudge(x float64, a []Tok, idx int) float64 {
+	if len(a) <= idx {
+		return x
+	}
+	for k := uint64(0); k < a[idx].U(); k++ {
+		x = math.Nextafter(x, 2)
+	}
+	return x
 }
